@@ -62,8 +62,8 @@ def obligations(tier, ctx):
                       backend="P", timeout=120, family="(c) a legacy per-request stream is pending for the id: the read stream still gets every message"))
     # (d) back-pressure and counts
     for kt in [("notif", "notif", "resp"), ("resp", "notif", "req", "notif")] if tier == "quick" else [("notif", "notif", "resp"), ("resp", "notif", "req", "notif"), ("notif",) * 4, ("resp",) * 3, ("junk", "notif", "notmsg", "notif", "resp")]:
-        obs.append(Ob(name="bounded_" + "_".join(kt), params=[("cap", "int"), ("i", "int")], pre=["1 <= cap <= 4", "0 <= i", f"i <= H.data_len({kt!r}, False)", ("i % 7 == 0" if tier == "quick" else "True")],
-                      call=f"H.routing_bounded({kt!r}, cap, i)", real=f"H.routing_bounded_real({kt!r}, cap, i)", backend="P", timeout=400, family="(d) back-pressure: read stream of symbolic capacity 1..4, consumer slower than the reader"))
+        obs.append(Ob(name="bounded_" + "_".join(kt), params=[("cap", "int"), ("i", "int")], pre=["1 <= cap <= 4", "0 <= i", f"i <= H.data_len({kt!r}, False)", ("i % 7 == 0" if tier == "quick" else "i % 3 == 0")],
+                      call=f"H.routing_bounded({kt!r}, cap, i)", real=f"H.routing_bounded_real({kt!r}, cap, i)", backend="P", timeout=400 if tier == "quick" else 1200, family="(d) back-pressure: read stream of symbolic capacity 1..4, consumer slower than the reader"))
     from symcheck import consts
     lim = 110 if tier == "quick" else 410
     nc = len(consts.size_cases(lim))
